@@ -511,7 +511,7 @@ RULES = [("writers", rule_writers), ("piece-pair", rule_piece_pair), ("turn-pair
 # game arrives at and the position a FEN loads must be the same engine state (en-passant file exactly after a double push as
 # the generator flagged it; the FEN's fields stored as they are)
 RULES += engine.premise_rules("c03", ["ep"])
-RULES += engine.premise_rules("c01", ["ply-builder", "capture-src"])
+RULES += engine.premise_rules("c01", ["ply-builder", "capture-src", "leaf-accessors"])
 RULES += engine.premise_rules("c07", ["fields", "side-ep", "history"])
 
 
